@@ -3,7 +3,7 @@
   exactly-once, arguments), cut after the first failing callback; the failing callback's exception
   propagates; nothing after it runs or is stored; `args` of exception classes.
 -/
-import AttrsModel.Spec.C01
+import AttrsModel.Spec.C01Base
 
 namespace Attrs.C02
 open Attrs.Init
